@@ -1,7 +1,7 @@
 """C20 — object identifiers round-trip between text, arcs and encoding"""
 from common import *
 
-THEOREMS = ['fromStr_eq_spec', 'parseU32_eq', 'encodeItem_eq', 'checkContent_iff', 'checkContent_eq_subIds', 'fromPrimitive_exhausted', 'skipPrimitive_exhausted', 'skipIfPrimitive_exhausted', 'take_skip_alike', 'components_eq', 'components_ok_iff', 'toU32_eq', 'toU32_base128', 'numbers_arcs', 'decimal_eq', 'display_numbers', 'display_arcs', 'fromStr_some', 'display_fromStr', 'fromStr_dotted', 'fromStr_display_fromStr']
+THEOREMS = ['fromStr_eq_spec', 'parseU32_eq', 'encodeItem_eq', 'checkContent_iff', 'checkContent_eq_subIds', 'fromPrimitive_exhausted', 'skipPrimitive_exhausted', 'skipIfPrimitive_exhausted', 'take_skip_alike', 'components_eq', 'components_ok_iff', 'toU32_eq', 'toU32_base128', 'numbers_arcs', 'decimal_eq', 'display_numbers', 'display_arcs', 'fromStr_some', 'display_fromStr', 'fromStr_dotted', 'fromStr_display_fromStr', 'eq_iff_content', 'hash_content', 'hashInput_inj']
 RULE = ("run <mode> T oid / oidskip / oidskipif on OID contents: all of length 0-2, structured longer ones with sub-identifiers of "
         "1-6 octets at every size-class boundary; oid.parse on grammar-generated dotted strings with arcs at "
         "{0,1,2,39,40,79,80,127,128,2^14+-1,2^21+-1,2^25,2^28+-1,2^32-81,2^32-80,2^32-1,2^32,2^64} plus malformed text; "
